@@ -95,6 +95,8 @@ pub enum Ty {
     Fn(Vec<Ty>, Box<Ty>),
     Adt(usize, Vec<Ty>),
     Param(u32),
+    /// trait object `dyn Tr` (index into `GProg::traits`)
+    Dyn(usize),
 }
 
 impl Ty {
@@ -251,10 +253,27 @@ impl Builtin {
     }
 }
 
+/// how a method call is written
+#[derive(Clone, Copy, PartialEq, Eq, Debug)]
+pub enum MForm {
+    /// `recv.m(args)`
+    Dot,
+    /// `Type::m(recv, args)`
+    TypeUfcs,
+    /// `Trait::m(recv, args)`
+    TraitUfcs,
+}
+
 #[derive(Clone, Debug)]
 pub enum Callee {
     /// top-level function with the generator's type arguments
     Fn(usize, Vec<Ty>),
+    /// a method whose implementation is known statically (inherent method, or trait method
+    /// on a receiver of concrete type): index into `fns`; the receiver is the first argument
+    Method(usize, MForm),
+    /// trait method (trait, method index) on a receiver whose implementation is only known at
+    /// run time: a value of a bounded type parameter or a `dyn Tr`; the receiver is the first argument
+    Dispatch(usize, usize, MForm),
     /// a function value (variable, field, projection …)
     Val(Box<Expr>),
     Builtin(Builtin),
@@ -316,6 +335,8 @@ pub enum Expr {
     Block(Vec<Stmt>, Option<Box<Expr>>),
     /// `go <closure expr>` : spawn an activation running the zero-argument closure
     Go(Box<Expr>),
+    /// a value of concrete type written where `dyn Tr` is expected (implicit coercion: nothing is written)
+    Coerce(usize, Box<Expr>),
 }
 
 #[derive(Clone, Debug)]
@@ -325,6 +346,39 @@ pub struct FnDef {
     pub params: Vec<(VarId, Ty)>,
     pub ret: Ty,
     pub body: Expr,
+    /// the impl block this function is a method of (its first parameter is `self`)
+    pub owner: Option<usize>,
+    /// trait bounds of the type parameters (indices into `GProg::traits`)
+    pub bounds: Vec<Vec<usize>>,
+}
+
+impl Default for FnDef {
+    fn default() -> Self {
+        FnDef { name: String::new(), tparams: 0, params: vec![], ret: Ty::Unit, body: Expr::Unit, owner: None, bounds: vec![] }
+    }
+}
+
+#[derive(Clone, Debug)]
+pub struct TraitSig {
+    pub name: String,
+    /// parameters after the receiver (closed types, no `Self`)
+    pub params: Vec<Ty>,
+    pub ret: Ty,
+}
+
+#[derive(Clone, Debug)]
+pub struct TraitDef {
+    pub name: String,
+    pub methods: Vec<TraitSig>,
+}
+
+#[derive(Clone, Debug)]
+pub struct ImplDef {
+    /// None = inherent impl
+    pub trait_: Option<usize>,
+    pub for_ty: Ty,
+    /// indices into `fns` (for a trait impl: in the order of the trait's methods)
+    pub methods: Vec<usize>,
 }
 
 #[derive(Clone, Debug)]
@@ -336,6 +390,8 @@ pub struct VarInfo {
 #[derive(Clone, Debug, Default)]
 pub struct GProg {
     pub adts: Vec<AdtDef>,
+    pub traits: Vec<TraitDef>,
+    pub impls: Vec<ImplDef>,
     pub fns: Vec<FnDef>,
     pub vars: Vec<VarInfo>,
     /// index of `main` in `fns`
@@ -347,5 +403,12 @@ pub struct GProg {
 impl GProg {
     pub fn label(&mut self, l: &str) {
         self.labels.insert(l.to_string());
+    }
+    /// the implementation of trait `tr` for the type `t`
+    pub fn impl_of(&self, tr: usize, t: &Ty) -> Option<usize> {
+        self.impls.iter().position(|i| i.trait_ == Some(tr) && &i.for_ty == t)
+    }
+    pub fn implements(&self, t: &Ty, traits: &[usize]) -> bool {
+        traits.iter().all(|tr| self.impl_of(*tr, t).is_some())
     }
 }
